@@ -61,16 +61,15 @@ package shared
 //@   ensures  old(packer.currentChunk) != nil ==> result != nil
 
 // ==== chunk IDs (C05): recovery and retransmission order chunks by ID, so IDs must grow in creation order ==========================
-// The ID is formatted from a (timestamp, sequence) pair; idts / idseq: the pair last formatted (ghost, from fmt.Sprintf's
-// arguments). Representation invariant: the generator's (epochNano, sequence) is the pair of the last ID issued. Every
-// new pair is lexicographically greater than the last one, whatever the wall clock does (time.Now is arbitrary here).
-//@ pure func idts() int := as(fmtarg0, int64)
-//@ pure func idseq() int := as(fmtarg1, int32)
+// The ID is formatted ("%019d-%08d", trusted to order like the pair for 0 <= ts < 10^19, 0 <= seq < 10^8) from the locals
+// nextTimestamp / nextSequence. Representation invariant: the generator's (epochNano, sequence) is the pair of the last
+// ID issued. Every new pair is lexicographically greater than the last one, whatever the wall clock does (time.Now is
+// arbitrary here).
 //@ func (generator *chunkIDGenerator) Generate() string
 //@   property C05
 //@   requires generator != nil && generator.sequence < 99999999 && generator.sequence >= 0 && generator.epochNano >= 0
-//@   modifies generator.epochNano, generator.sequence, generator.Mutex, fmtarg0, fmtarg1
-//@   ensures[id-is-the-generator-state] typeis(fmtarg0, int64) && typeis(fmtarg1, int32) && idts() == generator.epochNano && idseq() == generator.sequence
+//@   modifies generator.epochNano, generator.sequence, generator.Mutex
+//@   ensures[id-is-the-generator-state] cur(nextTimestamp) == generator.epochNano && cur(nextSequence) == generator.sequence
 //@   ensures[ids-grow-in-creation-order] generator.epochNano > old(generator.epochNano) || (generator.epochNano == old(generator.epochNano) && generator.sequence > old(generator.sequence))
 //@   ensures[sequence-fits-its-eight-digits] 0 <= generator.sequence && generator.sequence <= 99999999
 //@   canary ensures generator.epochNano > old(generator.epochNano)
